@@ -9,6 +9,7 @@ LEVELS = {
  "C12": ("exploration", "4.C12", "Every draw of tens of thousands of generated scripts is compared bit-for-bit between a stream, its twin, a solo run and runs interleaved with an unrelated stream; reset/set_seed judged against a fresh stream, restore against the recorded continuation. Held = no difference observed on the scripts run.", "CPython's random.Random is the generator underneath; spans below 2^1024."),
  "C16": ("exploration", "4.C16", "Exhaustive over the finite configuration space the statement names (all 41x41 ordered type pairs for * and /, every class against numbers and SI values, all SI signatures with <=3 non-zero exponents in all 8 print formats), sampled beyond it (random full signatures and values). Oracle = signature calculus + one IEEE operation, compared bit-for-bit.", "Quantity.sisig() of a named class is taken as that class's dimension; finite non-zero operand values."),
  "C17": ("exploration", "4.C17", "Exhaustive over the declaration tables: all 838 declared units of all 41 classes x 9 values, all (unit, unit2) re-expressions per class, all display aliases, all base units, all names in __all__ (also in a fresh interpreter); 231 compound and 429 SI-prefixed spellings recomputed from other declared units; plus random (class, unit, unit2, value) quadruples. Oracle = value*factor bit-for-bit.", "The class tables documented in Quantity's docstring are the declarations; compound spellings that cannot be resolved into declared atoms are counted, not judged."),
+ "C18": ("exploration", "4.C18", "Thousands of generated operation histories on parameter trees (all eight classes, valid/invalid constructions, sets through object and model, get/remove by dotted key) stepped against a reference tree; the whole real tree is audited after every operation and icontract class invariants run at every public call in a quarter of the shards. Held = no audit, invariant or outcome differed.", "bool-for-int and Quantity-for-float are accepted either way; keys are relative to the root map."),
 }
 
 def main():
